@@ -1,6 +1,301 @@
-//! `corr engine` (filled in later)
+//! `corr engine`: drives real `ZmtpEngine` instances (one per slot) with scripted bytes, ticks and
+//! application messages; pair mode wires two engines back to back through in-flight byte queues.
+//!
+//! ops (slot = A | B):
+//!   new <slot> <cfg>            cfg = comma separated k=v (see `parse_cfg`)
+//!   start <slot>
+//!   bytes <slot> <now> <bytes> <cuts>
+//!   app <slot> <message>
+//!   tick <slot> <now>
+//!   close <slot>
+//!   state <slot>
+//!   pstart                      start A and B, their output goes to the in-flight queues
+//!   deliver ab|ba <n> <now>     deliver n (0 = all) in-flight bytes to the receiving engine
+//!   papp <slot> <message>       on_app_message whose output goes to the in-flight queue
+
+use crate::*;
+use bytes::Bytes;
+use rzmq::protocol::zmtp::actions::{AppAction, EngineOutput, NetAction};
+use rzmq::protocol::zmtp::command::ZmtpReady;
+use rzmq::protocol::zmtp::engine::{ZmtpEngine, ZmtpPhase, ZmtpVersion};
+use rzmq::protocol::zmtp::manual_parser::ZmtpManualParser;
+use rzmq::verif::{new_engine, VEngineCfg};
+use std::collections::HashMap;
+use std::time::{Duration, Instant};
+
+pub struct Slot {
+  pub eng: ZmtpEngine,
+  pub t0: Instant,
+  pub panicked: bool,
+}
+
 #[derive(Default)]
-pub struct State {}
-pub fn run_op(_st: &mut State, _parts: &[&str]) -> String {
-  "bad-op".into()
+pub struct State {
+  pub slots: HashMap<String, Slot>,
+  pub ab: Vec<u8>,
+  pub ba: Vec<u8>,
+}
+
+fn opt_bytes(v: &str) -> Option<Vec<u8>> {
+  if v == "none" {
+    None
+  } else {
+    Some(parse_bytes(v))
+  }
+}
+
+fn opt_ms(v: &str) -> Option<Duration> {
+  if v == "none" {
+    None
+  } else {
+    Some(Duration::from_millis(v.parse().unwrap()))
+  }
+}
+
+pub fn parse_cfg(s: &str) -> (bool, VEngineCfg) {
+  let mut c = VEngineCfg::default();
+  let mut server = false;
+  c.socket_type_name = "DEALER".into();
+  for kv in s.split(',') {
+    let (k, v) = kv.split_once('=').expect("k=v");
+    match k {
+      "role" => server = v == "s",
+      "type" => c.socket_type_name = v.to_string(),
+      "id" => {
+        let b = parse_bytes(v);
+        c.routing_id = if b.is_empty() { None } else { Some(b) };
+      }
+      "sec" => c.security_enabled = v == "1",
+      "zmtp2" => c.allow_zmtp2 = v == "1",
+      "plain" => c.use_plain = v == "1",
+      "curve" => c.use_curve = v == "1",
+      "noise" => c.use_noise_xx = v == "1",
+      "user" => c.plain_username = opt_bytes(v).map(|b| String::from_utf8(b).expect("utf8 user")),
+      "pass" => c.plain_password = opt_bytes(v).map(|b| String::from_utf8(b).expect("utf8 pass")),
+      "hbivl" => c.heartbeat_ivl = opt_ms(v),
+      "hbto" => c.heartbeat_timeout = opt_ms(v),
+      "cork" => c.use_cork = v == "1",
+      "zc" => c.use_send_zerocopy = v == "1",
+      "max" => c.max_msg_size = v.parse().unwrap(),
+      _ => panic!("bad cfg key {k}"),
+    }
+  }
+  (server, c)
+}
+
+/// A READY command is emitted from a `HashMap`: canonicalise the property order (sorted by name).
+fn canon_send(data: &[u8]) -> Vec<u8> {
+  let parser = ZmtpManualParser::new(-1);
+  if let Ok(Some((m, n))) = parser.decode_frame_from_slice(data) {
+    if n == data.len() && m.is_command() && !m.is_more() {
+      let body = m.data().unwrap_or(&[]);
+      if body.starts_with(b"\x05READY") {
+        if let Ok(r) = ZmtpReady::parse_properties(&body[6..]) {
+          let mut keys: Vec<&String> = r.properties.keys().collect();
+          keys.sort();
+          let mut nb = Vec::new();
+          nb.extend_from_slice(b"\x05READY");
+          for k in keys {
+            let v = &r.properties[k];
+            nb.push(k.len() as u8);
+            nb.extend_from_slice(k.as_bytes());
+            nb.extend_from_slice(&(v.len() as u32).to_be_bytes());
+            nb.extend_from_slice(v);
+          }
+          let mut out = Vec::new();
+          if nb.len() <= 255 {
+            out.push(data[0] & !2);
+            out.push(nb.len() as u8);
+          } else {
+            out.push(data[0] | 2);
+            out.extend_from_slice(&(nb.len() as u64).to_be_bytes());
+          }
+          out.extend_from_slice(&nb);
+          return out;
+        }
+      }
+    }
+  }
+  data.to_vec()
+}
+
+pub fn show_out(out: &EngineOutput) -> String {
+  let mut net = Vec::new();
+  for a in &out.net_actions {
+    net.push(match a {
+      NetAction::Send { data, zc_eligible } => {
+        format!("S({}){}", summ(&canon_send(data)), if *zc_eligible { "Z" } else { "" })
+      }
+      NetAction::SetCork(b) => format!("C{}", *b as u8),
+      NetAction::ScheduleClose(d) => match d {
+        Some(d) => format!("X{}", d.as_millis()),
+        None => "Xnone".into(),
+      },
+    });
+  }
+  let mut app = Vec::new();
+  for a in &out.app_actions {
+    app.push(match a {
+      AppAction::HandshakeComplete { peer_identity, peer_socket_type } => format!(
+        "H(id={},type={})",
+        peer_identity.as_ref().map(|b| format!("h{}", hex::encode(b.as_ref()))).unwrap_or_else(|| "none".into()),
+        match peer_socket_type {
+          None => "none".to_string(),
+          Some(s) if s.contains('\u{FFFD}') => "LOSSY".to_string(),
+          Some(s) => format!("h{}", hex::encode(s.as_bytes())),
+        }
+      ),
+      AppAction::DeliverMessage(fb) => format!("D({})", show_frames(fb.iter())),
+      AppAction::PeerError(e) => format!("E({})", err_class(e)),
+    });
+  }
+  format!("net=[{}] app=[{}]", net.join(" "), app.join(" "))
+}
+
+fn sends_of(out: &EngineOutput) -> Vec<u8> {
+  let mut v = Vec::new();
+  for a in &out.net_actions {
+    if let NetAction::Send { data, .. } = a {
+      v.extend_from_slice(data);
+    }
+  }
+  v
+}
+
+fn feed(slot: &mut Slot, now: u64, data: &[u8]) -> EngineOutput {
+  let before = slot.eng.verif_last_activity();
+  let out = slot.eng.on_network_bytes(Bytes::copy_from_slice(data));
+  if slot.eng.verif_last_activity() != before {
+    // the engine stamped "now" with the wall clock: replace it by the scripted time
+    slot.eng.verif_set_last_activity(slot.t0 + Duration::from_millis(now));
+  }
+  out
+}
+
+pub fn run_op(st: &mut State, p: &[&str]) -> String {
+  match p[0] {
+    "new" => {
+      let (server, cfg) = parse_cfg(p[2]);
+      let mut eng = new_engine(server, &cfg);
+      let t0 = Instant::now() + Duration::from_secs(3600);
+      eng.verif_set_last_activity(t0);
+      st.slots.insert(p[1].to_string(), Slot { eng, t0, panicked: false });
+      if p[1] == "A" {
+        st.ab.clear();
+        st.ba.clear();
+      }
+      "ok".into()
+    }
+    "pstart" => {
+      let oa = st.slots.get_mut("A").unwrap().eng.start();
+      let ob = st.slots.get_mut("B").unwrap().eng.start();
+      st.ab.extend(sends_of(&oa));
+      st.ba.extend(sends_of(&ob));
+      format!("A:{} B:{}", show_out(&oa), show_out(&ob))
+    }
+    "deliver" => {
+      let n: usize = p[2].parse().unwrap();
+      let now: u64 = p[3].parse().unwrap();
+      let (q, rx, back) = if p[1] == "ab" { (&mut st.ab, "B", false) } else { (&mut st.ba, "A", true) };
+      let n = if n == 0 { q.len() } else { n.min(q.len()) };
+      let data: Vec<u8> = q.drain(..n).collect();
+      let slot = st.slots.get_mut(rx).unwrap();
+      if slot.panicked {
+        return "PANIC".into();
+      }
+      let out = match std::panic::catch_unwind(std::panic::AssertUnwindSafe(|| feed(slot, now, &data))) {
+        Ok(o) => o,
+        Err(_) => {
+          slot.panicked = true;
+          return "PANIC".into();
+        }
+      };
+      let s = sends_of(&out);
+      if back {
+        st.ab.extend(s);
+      } else {
+        st.ba.extend(s);
+      }
+      format!("n={} {}", n, show_out(&out))
+    }
+    _ => {
+      let slot = match st.slots.get_mut(p[1]) {
+        Some(s) => s,
+        None => return "no-slot".into(),
+      };
+      if slot.panicked {
+        return "PANIC".into();
+      }
+      let r = std::panic::catch_unwind(std::panic::AssertUnwindSafe(|| slot_op(slot, p)));
+      match r {
+        Ok((s, sends)) => {
+          if p[0] == "papp" {
+            if p[1] == "A" {
+              st.ab.extend(sends);
+            } else {
+              st.ba.extend(sends);
+            }
+          }
+          s
+        }
+        Err(_) => {
+          st.slots.get_mut(p[1]).unwrap().panicked = true;
+          "PANIC".into()
+        }
+      }
+    }
+  }
+}
+
+fn slot_op(slot: &mut Slot, p: &[&str]) -> (String, Vec<u8>) {
+  match p[0] {
+    "start" => (show_out(&slot.eng.start()), vec![]),
+    "bytes" => {
+      let now: u64 = p[2].parse().unwrap();
+      let data = parse_bytes(p[3]);
+      let mut outs = Vec::new();
+      for ch in crate::wire::chunks(&data, p[4]) {
+        outs.push(show_out(&feed(slot, now, ch)));
+      }
+      (outs.join(" | "), vec![])
+    }
+    "app" | "papp" => {
+      let m = to_frame_batch(parse_message(p[2]));
+      let out = slot.eng.on_app_message(m);
+      let s = sends_of(&out);
+      (show_out(&out), s)
+    }
+    "tick" => {
+      let now: u64 = p[2].parse().unwrap();
+      (show_out(&slot.eng.on_tick(slot.t0 + Duration::from_millis(now))), vec![])
+    }
+    "close" => (show_out(&slot.eng.close()), vec![]),
+    "state" => {
+      let ph = match slot.eng.phase {
+        ZmtpPhase::Greeting => "greeting",
+        ZmtpPhase::Security => "security",
+        ZmtpPhase::Ready => "ready",
+        ZmtpPhase::V2Identity => "v2identity",
+        ZmtpPhase::Data => "data",
+        ZmtpPhase::Closed => "closed",
+      };
+      let ver = match slot.eng.verif_version() {
+        None => "none",
+        Some(ZmtpVersion::V2) => "v2",
+        Some(ZmtpVersion::V3) => "v3",
+      };
+      (
+        format!(
+          "phase={} acc={} wfp={} partial={} ver={}",
+          ph,
+          slot.eng.buffer_len(),
+          slot.eng.is_waiting_for_pong() as u8,
+          slot.eng.verif_partial_len(),
+          ver
+        ),
+        vec![],
+      )
+    }
+    _ => ("bad-op".into(), vec![]),
+  }
 }
